@@ -7,13 +7,16 @@ pid = sys.argv[1]
 mode = 'no-run' if '--no-run' in sys.argv else 'run'
 checks = [pid]
 offset = 0
+only = None
 for a in sys.argv:
     if a.startswith('--checks='): checks = a.split('=')[1].split(',')
     if a.startswith('--offset='): offset = int(a.split('=')[1])
+    if a.startswith('--only='): only = int(a.split('=')[1])
 out = f'/tmp/seed_{pid}/out'
 notes = open(out + '/notes.md').read() if os.path.exists(out + '/notes.md') else ''
 for n in (1, 2):
     if not os.path.exists(f'{out}/patch{n}.diff'): continue
+    if only is not None and n != only: continue
     r = subprocess.run(['/verif/tools/verify_seed.sh', pid, str(n)] + ([mode] if mode == 'no-run' else []), capture_output=True, text=True)
     line = [l for l in r.stdout.splitlines() if l.startswith(pid + '/')][-1:] or ['?']
     print(line[0])
